@@ -1,0 +1,80 @@
+//go:build verif
+
+package objectcore
+
+import (
+	"github.com/nspcc-dev/neofs-node/internal/signed256"
+)
+
+// This file exports thin wrappers around unexported/internal decimal-integer
+// readers and the signed 256-bit index encoding for the conformance harness
+// (/verif, family "search"). It adds no behaviour.
+
+// VerifParseDecimal calls [signed256.ParseDecimal] and returns the printed
+// value and the 33-byte index key.
+func VerifParseDecimal(s string) (dec string, key []byte, ok bool) {
+	n, err := signed256.ParseDecimal(s)
+	if err != nil {
+		return "", nil, false
+	}
+	return n.String(), IntBytes(&n), true
+}
+
+// VerifParseNormalized calls [signed256.ParseNormalizedDecimal].
+func VerifParseNormalized(neg bool, digits string) (dec string, key []byte, ok bool) {
+	n, err := signed256.ParseNormalizedDecimal(neg, digits)
+	if err != nil {
+		return "", nil, false
+	}
+	return n.String(), IntBytes(&n), true
+}
+
+// VerifSplitIntString calls splitIntString.
+func VerifSplitIntString(s string) (neg bool, digits string, ok bool) {
+	neg, digits, err := splitIntString(s)
+	return neg, digits, err == nil
+}
+
+// VerifCompareIntStrings calls compareIntStrings.
+func VerifCompareIntStrings(a, b string) (int, bool) {
+	c, err := compareIntStrings(a, b)
+	return c, err == nil
+}
+
+// VerifCmpDecimals parses both strings with [signed256.ParseDecimal] and
+// compares them with [signed256.Int.Cmp].
+func VerifCmpDecimals(a, b string) (int, bool) {
+	x, err := signed256.ParseDecimal(a)
+	if err != nil {
+		return 0, false
+	}
+	y, err := signed256.ParseDecimal(b)
+	if err != nil {
+		return 0, false
+	}
+	return x.Cmp(&y), true
+}
+
+// VerifDecodeKey calls [signed256.DecodeBytes] and prints the value.
+func VerifDecodeKey(key []byte) (dec string, ok bool) {
+	n, err := signed256.DecodeBytes(key)
+	if err != nil {
+		return "", false
+	}
+	return n.String(), true
+}
+
+// VerifFromInt64 returns printed value and key of [signed256.NewInt].
+func VerifFromInt64(v int64) (string, []byte) {
+	n := signed256.NewInt(v)
+	return n.String(), IntBytes(&n)
+}
+
+// VerifFromUint64 returns printed value and key of [signed256.NewUint64] and of
+// [signed256.Int.SetUint64] (both must agree).
+func VerifFromUint64(v uint64) (string, []byte, string, []byte) {
+	n := signed256.NewUint64(v)
+	var m signed256.Int
+	m.SetUint64(v)
+	return n.String(), IntBytes(&n), m.String(), IntBytes(&m)
+}
